@@ -51,22 +51,35 @@ def autocczFactory (l1 l2 : Nat) : Factory :=
 /-- `range(lo, hi, 2)` -/
 def oddRange (lo hi : Nat) : List Nat := (List.range ((hi - lo + 1) / 2)).map fun k => lo + 2 * k
 
-/-- `iter_known_factories(0.001)` in order -/
-def knownFactories : List Factory :=
-  tFactory :: (oddRange 5 25).flatMap fun l1 => (oddRange (l1 + 2) 41).map fun l2 => autocczFactory l1 l2
+/-- `iter_auto_ccz_factories` in order -/
+def autocczFactories : List Factory :=
+  (oddRange 5 25).flatMap fun l1 => (oddRange (l1 + 2) 41).map fun l2 => autocczFactory l1 l2
 
-/-- `AlgorithmParameters.estimate_cost` with `factory_count = 4`, `routing_overhead_proportion = 0.5`:
-`(physical_qubit_count, rounds)` -/
-def estimateCost (nq nt dist : Nat) (f : Factory) : Nat × Nat :=
-  let logicalStorage := ceilNat ((nq : Rat) * (3 / 2))
+/-- `iter_known_factories(physical_error_rate)` in order: the two-level T factory is offered only for the rate
+`0.001` (`withT`) -/
+def knownFactoriesFor (withT : Bool) : List Factory :=
+  if withT then tFactory :: autocczFactories else autocczFactories
+
+/-- `iter_known_factories(0.001)` in order -/
+def knownFactories : List Factory := knownFactoriesFor true
+
+/-- `AlgorithmParameters.estimate_cost`: `(physical_qubit_count, rounds)` for a routing overhead proportion and a
+factory count -/
+def estimateCostG (nq nt dist : Nat) (f : Factory) (routing : Rat) (fcount : Nat) : Nat × Nat :=
+  let logicalStorage := ceilNat ((nq : Rat) * (1 + routing))
   let storageArea := logicalStorage * physPerLogical dist
-  let distillationArea := 4 * f.1
-  let rounds := ((nt : Rat) / 4 * f.2).floor.toNat
+  let distillationArea := fcount * f.1
+  let rounds := ((nt : Rat) / (fcount : Rat) * f.2).floor.toNat
   (storageArea + distillationArea, rounds)
 
+/-- with the parameters `cost_estimator` uses: `factory_count = 4`, `routing_overhead_proportion = 0.5` -/
+def estimateCost (nq nt dist : Nat) (f : Factory) : Nat × Nat := estimateCostG nq nt dist f (1 / 2) 4
+
 /-- the candidates of `cost_estimator` in loop order: every factory × `range(7, 35, 2)` -/
-def candidates (nq nt : Nat) : List (Nat × Nat) :=
-  knownFactories.flatMap fun f => (oddRange 7 35).map fun dist => estimateCost nq nt dist f
+def candidatesFor (withT : Bool) (nq nt : Nat) : List (Nat × Nat) :=
+  (knownFactoriesFor withT).flatMap fun f => (oddRange 7 35).map fun dist => estimateCost nq nt dist f
+
+def candidates (nq nt : Nat) : List (Nat × Nat) := candidatesFor true nq nt
 
 /-- one iteration of the selection loop on candidate `j` -/
 def selectStep (cands : List (Nat × Nat)) (feasible : List Bool) (best : Option (Nat × Nat × Nat)) (j : Nat) :
